@@ -112,6 +112,14 @@ Theorem C19_disc_annotated_dispatch :
 Proof. exact disc_annotated_dispatch. Qed.
 Print Assumptions C19_disc_annotated_dispatch.
 
+(* ... and for Annotated[Union[A, B, ...], Discriminator(field, include_subtypes?, include_supertypes?)] *)
+Theorem C19_disc_union_dispatch :
+  forall E cs sb sp t v kvs n,
+    lookup_tag E false (discu_variants E cs sb sp) t = Some v -> c_disc (cls E v) = None ->
+    unpack E (WDict (Some t) kvs) (TDiscU cs true sb sp) n = unpack E (WDict (Some t) kvs) (TDc v) n.
+Proof. exact disc_union_dispatch. Qed.
+Print Assumptions C19_disc_union_dispatch.
+
 (* missing or unknown tag: the call fails and no hook has run *)
 Theorem C19_disc_no_variant :
   forall E c kvs n,
